@@ -253,10 +253,11 @@ func (b *bv) isConst() (int64, bool) {
 }
 
 // String renders MSB→LSB as a concatenation of ranges, dropping leading zeros:
-//   d1[7]           single bit
-//   d1[3:0]         range
-//   {d20[7:6],d19}  concatenation (a whole byte source omits its range)
-//   0b101           constants
+//
+//	d1[7]           single bit
+//	d1[3:0]         range
+//	{d20[7:6],d19}  concatenation (a whole byte source omits its range)
+//	0b101           constants
 func (b *bv) String() string {
 	if b == nil {
 		return "?"
